@@ -1544,6 +1544,8 @@ def run(ctx):
         info = dict(rows=[], uch_bits=0, changed=False)
         ctx.log("translator FAILED: %s" % trans_err)
     proof = C.prove(ctx, "HawkModel.Props.C15", leanchecker=(ctx.tier == "thorough"))
+    from .. import ctie
+    tie = ctie.tie(ctx, "C15", leanchecker=(ctx.tier == "thorough"))   # byte expressions of hawk_uc_to_utf8: translated C = model
     libdir = C.build_libhawk(ctx)
     exe = C.cc_harness(ctx, os.path.join(C.VERIF, "harness", "utf8_h.c"), link_lib=libdir)
     # corpus first
@@ -1685,7 +1687,7 @@ def run(ctx):
         return False
     nontriv = len({l for l in lines if nontrivial(l)})
     samples = [l[:160] for l in (lines[ncorpus:ncorpus + 2] + [x for x in lines if x.startswith("tior")][5:8] + [x for x in lines if x.startswith("tiow")][:1])]
-    return C.finish(ctx, [proof], evaluations, nontriv,
+    return C.finish(ctx, [proof] + tie, evaluations, nontriv,
                     "ops = corpus + exhaustive (every BMP value encoded/decoded/truncated, all 1- and 2-byte sequences, 3-byte grid, overlong/4/5/6-byte/FE/FF forms) + seeded random "
                     "conversion calls + tio read runs (all 2-chunk splits of seed streams, a multibyte character at every offset around the staging-buffer size, the 2048/2048 sio/rio sizes, "
                     "random streams each under two schedules (chunking x capacity x read size), with and without IGNOREECERR, well- and ill-formed) + tio write runs; decided first by a "
